@@ -8,6 +8,7 @@ tensor `t`   = `<n>.<h>.<w>.<c>.<elemBytes>.<nhcwb16>`
 op           = `<index>:<ifm t>:<ifm2 t|->:<ofm t>:<reqFullIfm>:<reqFullOfm>:<binaryEw>:<ofmCanReuseIfm>:<cascadableStatic>:<dep>/<dep>…:<overread>`
 cost         = `<stripe n.h.w.c>~<stripe_input n.h.w.c>~<wb>.<wb>…~<cascade>`;  cost map = `<index>@<cost>,…`
 
+`sinfo <ofm n.h.w.c> <stripe n.h.w.c> <ifm n.h.w.c> <ifm2 n.h.w.c|-> <sy> <sx> <areaH> <areaW> <upscale> <nearest>` → `<stripe_input n.h.w.c> <stripe_input2 n.h.w.c|->`
 `bcasc spill=<0|1> limit=<int> NL=<index>:<int>,… OPS=<op>;… REF=<cost map> FB=<cost map> [BM=<p>/<c>@<n.h.w.c>@<size>,…]`
    → `ok peak=<int> cost=<index>@<stripe h>.<stripe_input h>.<cascade>.<sum wb>,… casc=<start>:<end>:<mem>:<j>=<n.h.w.c>/…;…`
 `optsub spill= limit= snap=<int> cimem=<int> cistart=<n> ciend=<n> multi=<0|1> OPS= FB= P=<cost map>|<cost map>|…`
@@ -200,6 +201,12 @@ def handle : List String → Option String
   | "minnl" :: toks => some ((handleMinnl toks).getD "err:parse")
   | "tusage" :: toks => some ((handleTusage toks).getD "err:parse")
   | "fast" :: toks => some ((handleFast toks).getD "err:parse")
+  | ["sinfo", ofm, stripe, ifm, ifm2, sy, sx, ah, aw, up, nr] =>
+    some ((do
+      let i2 ← if ifm2 == "-" then some none else (parseShape ifm2).map some
+      let r := stripeInputs (← parseShape ofm) (← parseShape stripe) (← parseShape ifm) i2 (← parseInt? sy) (← parseInt? sx)
+        (← parseInt? ah) (← parseInt? aw) (← parseInt? up) (← parseBool nr)
+      some s!"{shapeStr r.1} {match r.2 with | some s2 => shapeStr s2 | none => "-"}").getD "err:parse")
   | ["ffast", c, n, o, v] =>
     some ((do some (boolStr (forcedToFast (← parseNat? c) (← parseNat? n) (← parseBool o) (← parseBool v)))).getD "err:parse")
   | "opbuf" :: toks =>
